@@ -162,6 +162,26 @@ def misuse_matrix(ctx):
         t(lname + ' layer: objective vec(x_A, x_B).sum() of B', two(lambda A, xa, B, xb: (B.min(rso.concat([xa, xb]).sum()), B.st(xb >= 0), B.solve(display=False), B.get())))
         t(lname + ' layer: objective of another model', two(lambda A, xa, B, xb: (A.min(xb.sum()), A.st(xa >= 0), A.solve(display=False), A.get())))
 
+    # solved rules evaluated at / queried for a random variable of ANOTHER model (positions would be read blindly)
+    def solved_ro_rule():
+        from rsome import ro
+        A = ro.Model(); z1 = A.rvar(2); u1 = A.rvar(2); y = A.ldr(); tt = A.dvar()
+        y.adapt(z1); y.adapt(u1); A.minmax(tt, abs(z1) <= 1, abs(u1) <= 1)
+        tot = z1.sum() + 2 * u1.sum(); A.st(tt >= y - tot, tt >= tot - y); A.solve(display=False)
+        B = ro.Model(); B.rvar(2); z2 = B.rvar(2)
+        return y, z1, z2, (tot + y)
+
+    def solved_dro_rule():
+        from rsome import dro
+        A = dro.Model(2); zz = A.rvar(2); v = A.dvar(); xs = A.dvar(); v.adapt(zz); fs = A.ambiguity(); fs.suppset(zz >= 0, zz <= 1)
+        A.minsup(rso.E(v), fs); A.st(v >= zz.sum(), xs == 2); A.solve(display=False)
+        B = dro.Model(2); w2 = B.rvar(2)
+        return v, zz, w2, (xs * zz[0] + xs)
+    for fam, mkr in (('ro', solved_ro_rule), ('dro', solved_dro_rule)):
+        t(fam + ' solved rule evaluated at a foreign random variable', lambda mkr=mkr: (lambda y, z1, z2, e: y(z2.assign(np.ones(2))))(*mkr()))
+        t(fam + ' solved rule: coefficients on a foreign random variable', lambda mkr=mkr: (lambda y, z1, z2, e: y.get(z2))(*mkr()))
+        t(fam + ' solved bi-affine expression evaluated at a foreign random variable', lambda mkr=mkr: (lambda y, z1, z2, e: e(z2.assign(np.ones(2))))(*mkr()))
+
     def amb_after(A, xa, za):
         A.st(xa >= 0)
         return A.ambiguity()
@@ -182,8 +202,13 @@ def misuse_matrix(ctx):
         A, xa, za = mk('dro'); fa = A.ambiguity(); fa.suppset(za <= 1, za >= 0); A.minsup(rso.E(xa[1] + za[0]), fa)
     def legal_own_scen():
         A, xa, za = mk('dro'); fa = A.ambiguity(); xa.adapt(fa[0])
+    def legal_own_rvar(fam):
+        y, z1, z2, e = (solved_ro_rule if fam == 'ro' else solved_dro_rule)()
+        y(z1.assign(np.ones(2))); y.get(z1); e(z1.assign(np.ones(2)))
     for name, f in [('dro min(x[0]) of a vector', legal_slice_objective), ('dro minsup(E(x[1] + z[0]))', legal_slice_minsup),
-                    ('dro adapt(own scenario object)', legal_own_scen)]:
+                    ('dro adapt(own scenario object)', legal_own_scen),
+                    ('ro solved rule evaluated at / queried for its own random variable', lambda: legal_own_rvar('ro')),
+                    ('dro solved rule evaluated at / queried for its own random variable', lambda: legal_own_rvar('dro'))]:
         ctx.search_cases += 1; ctx.evaluations += 1; ctx.programs += 1
         try:
             with C.quiet():
